@@ -505,6 +505,26 @@ class FixedWidthBinning(BinningBase):
     def is_regular(self, **kwargs) -> bool:
         return True
 
+    def _cover_value(self, value, includes_right_edge) -> Tuple[int, int]:
+        """Add whole bins until the value really lies within the edges as computed.
+
+        The floor / ceil arithmetic above is exact only up to rounding: e.g. 1.7 / 0.1
+        evaluates to 17.0 while the edge 17 * 0.1 is slightly larger than 1.7.
+        """
+        extra_left = extra_right = 0
+        if not np.isfinite(value):
+            return extra_left, extra_right
+        while value < self.first_edge:
+            self._times_min -= 1
+            self._bin_count += 1
+            extra_left += 1
+        while value > self.last_edge or (
+            value == self.last_edge and not includes_right_edge
+        ):
+            self._bin_count += 1
+            extra_right += 1
+        return extra_left, extra_right
+
     def _force_bin_existence_single(self, value, includes_right_edge=None):
         if includes_right_edge is None:
             includes_right_edge = self.includes_right_edge
@@ -514,6 +534,7 @@ class FixedWidthBinning(BinningBase):
             if not self._align:
                 self._shift = value - self._times_min * self.bin_width
             self._bin_count = 1
+            self._cover_value(value, includes_right_edge)
             self._bins = None
             self._numpy_bins = None
             return ()
@@ -530,6 +551,9 @@ class FixedWidthBinning(BinningBase):
                 if self.last_edge == value and not includes_right_edge:
                     add_right += 1
                     self._bin_count += 1
+            extra_left, extra_right = self._cover_value(value, includes_right_edge)
+            add_left += extra_left
+            add_right += extra_right
             if add_left or add_right:
                 self._bins = None
                 self._numpy_bins = None
